@@ -226,6 +226,12 @@ func c06Record(col *collector, c c06Case) {
 	if c.Refusal != "" {
 		cl = append(cl, "refusal:"+c.Refusal)
 	}
+	if len(f) >= 9 {
+		cl = append(cl, "roots>=9")
+	}
+	if c.Target != "" {
+		cl = append(cl, "target:"+c.Target)
+	}
 	nontrivial := (files >= 1 && dirLeaves >= 1 && model.Merge(f).Depth() >= 2) || len(c.PreRoot) > 0 || c.Refusal != ""
 	col.eval(nontrivial, hash64(fmt.Sprint(f, c.Exts, c.HasExts, c.Entry, c.Massive, c.State, c.PreRoot, c.Refusal, c.LongAt, c.Target, c.PreOps)), cl...)
 	col.sample(func() any { return c })
@@ -238,6 +244,23 @@ func c06Gen() *rapid.Generator[c06Case] {
 		if hasDupRoots(f) {
 			uniqRoots(f)
 		}
+		if entry == "md" && rapid.IntRange(0, 5).Draw(t, "manyRoots") == 0 {
+			// 9..40 distinctly named roots (hidden names, names that look like options or shell syntax) with small subtrees
+			pool := append([]string{".github", ".gitignore", ".env", ".config", "..a", ".go", "~", "~build", "-rf", "--help", "a b", "README.md", "Makefile", "$HOME", "%s"}, validElemPool()...)
+			seen := map[string]bool{}
+			f = nil
+			for _, nm := range rapid.Permutation(pool).Draw(t, "rootNames")[:rapid.IntRange(9, 40).Draw(t, "nroots")] {
+				if seen[nm] || len(nm) > 100 {
+					continue
+				}
+				seen[nm] = true
+				r := &model.T{Name: nm}
+				if sub := rapid.IntRange(0, 3).Draw(t, "sub"); sub > 0 {
+					r.Kids = genForest(forestParams{maxNodes: sub, maxDepth: 3, names: sampled(validElemPool())}).Draw(t, "subtree")
+				}
+				f = append(f, r)
+			}
+		}
 		c := c06Case{Forest: f, Entry: entry, Exts: genExts(f.Names()).Draw(t, "exts")}
 		c.HasExts = rapid.Bool().Draw(t, "hasExts")
 		if entry == "root" && rapid.Bool().Draw(t, "withPreOps") {
@@ -245,8 +268,8 @@ func c06Gen() *rapid.Generator[c06Case] {
 		}
 		c.Massive = rapid.IntRange(0, 3).Draw(t, "massive") == 0
 		c.State = rapid.SampledFrom([]string{"empty", "empty", "missing", "populated"}).Draw(t, "state")
-		c.Target = rapid.SampledFrom([]string{"", "", "rel", "slash", "short"}).Draw(t, "target")
-		if c.Target == "short" && c.State == "missing" {
+		c.Target = rapid.SampledFrom([]string{"", "", "rel", "slash", "short", "tilde"}).Draw(t, "target")
+		if linkTarget(c.Target) && c.State == "missing" {
 			c.Target = "rel" // the one-character name is a link to the target and needs it to exist
 		}
 		switch rapid.IntRange(0, 5).Draw(t, "scenario") {
@@ -261,7 +284,7 @@ func c06Gen() *rapid.Generator[c06Case] {
 			c.Refusal = rapid.SampledFrom([]string{"longname", "targetIsFile", "parentIsFile"}).Draw(t, "refusal")
 			c.LongAt = rapid.IntRange(0, f.Count()-1).Draw(t, "longAt")
 			c.State = "empty"
-			if c.Target == "short" {
+			if linkTarget(c.Target) {
 				c.Target = ""
 			}
 		}
